@@ -65,6 +65,12 @@ ErrorKinds(wb) ==
 Undecided(wb) == ErrorKinds(wb) = {} /\ \E c \in Cities(wb) :
                     DeclType(wb, c) = "ILA" /\ Degree(wb, c) # 2 /\ Cardinality(RowsFrom(wb, c)) > 1
 
+\* rows that contradict each other without breaking a documented rule: a FUSED site ("ingress and egress spans are
+\* fused together") that does not have exactly two links, or an Eqpt row on a FUSED site.  The property allows two
+\* outcomes: rejected with a topology error, or converted into a network in which nothing dangles.
+Inconsistent(wb) == ErrorKinds(wb) = {} /\ \E c \in Cities(wb) :
+                       DeclType(wb, c) = "FUSED" /\ (Degree(wb, c) # 2 \/ RowsFrom(wb, c) # {})
+
 -----------------------------------------------------------------------------
 (* topologies: els = sequence of [uid, type, city, variety, p]; cx = sequence of [from, to]; pd = per-degree targets *)
 NoP == [length |-> Absent, loss_coef |-> Absent, con_in |-> Absent, con_out |-> Absent, gain |-> Absent, dp |-> Absent,
@@ -81,23 +87,26 @@ SideVariety(a) == IF a.type = "fused" THEN "" ELSE a.type
 SideP(a)       == IF a.type = "fused" THEN FusedP ELSE AmpP(a)
 
 Uids(o)    == {o.els[i].uid : i \in 1..Len(o.els)}
-El(o, u)   == CHOOSE e \in SeqSet(o.els) : e.uid = u
-Succ(o, u) == {c.to : c \in {x \in SeqSet(o.cx) : x.from = u}}
-Pred(o, u) == {c.from : c \in {x \in SeqSet(o.cx) : x.to = u}}
+\* an index of the observed topology, computed once: element by name, predecessor / successor sets, and for every
+\* fibre the site it comes from and the site it goes to (the sites of its unique predecessor / successor)
+Index(o) ==
+  LET U == Uids(o)
+      el == [u \in U |-> CHOOSE e \in SeqSet(o.els) : e.uid = u]
+      succ == [u \in U |-> {c.to : c \in {x \in SeqSet(o.cx) : x.from = u}}]
+      pred == [u \in U |-> {c.from : c \in {x \in SeqSet(o.cx) : x.to = u}}]
+      site(S) == IF Cardinality(S) = 1 /\ S \subseteq U THEN el[CHOOSE u \in S : TRUE].city ELSE "?"
+      fib == {u \in U : el[u].type = "Fiber"}
+  IN [uids |-> U, el |-> el, succ |-> succ, pred |-> pred, fibers |-> fib,
+      up |-> [u \in fib |-> site(pred[u])], down |-> [u \in fib |-> site(succ[u])]]
 At(o, c)   == {e \in SeqSet(o.els) : e.city = c}
-Fibers(o)  == {e \in SeqSet(o.els) : e.type = "Fiber"}
-\* a fibre runs from the site of its predecessor to the site of its successor
-Up(o, f)   == IF Cardinality(Pred(o, f.uid)) = 1 /\ Pred(o, f.uid) \subseteq Uids(o)
-              THEN El(o, CHOOSE u \in Pred(o, f.uid) : TRUE).city ELSE "?"
-Down(o, f) == IF Cardinality(Succ(o, f.uid)) = 1 /\ Succ(o, f.uid) \subseteq Uids(o)
-              THEN El(o, CHOOSE u \in Succ(o, f.uid) : TRUE).city ELSE "?"
-FibersFromTo(o, x, y) == {f \in Fibers(o) : Up(o, f) = x /\ Down(o, f) = y}
+FibersFromTo(ix, x, y) == {u \in ix.fibers : ix.up[u] = x /\ ix.down[u] = y}
+IsLine(e) == e.type \in {"Edfa", "Fused"}
 
-\* ---- the clauses
+\* ---- the clauses (ix = Index(o))
 UniqueNames(o)    == Cardinality(Uids(o)) = Len(o.els)
 EndpointsExist(o) == \A c \in SeqSet(o.cx) : c.from \in Uids(o) /\ c.to \in Uids(o)
 
-SiteInventory(wb, o) ==
+SiteInventory(wb, o, ix) ==
   /\ \A e \in SeqSet(o.els) : e.type = "Fiber" \/ e.city \in Cities(wb)
   /\ \A c \in Cities(wb) :
        LET here == At(o, c)
@@ -107,71 +116,75 @@ SiteInventory(wb, o) ==
                  /\ n("Transceiver") = 1 /\ n("Roadm") = 1 /\ n("Edfa") + n("Fused") = 2 * rows
                  /\ LET t == CHOOSE e \in here : e.type = "Transceiver"
                         r == CHOOSE e \in here : e.type = "Roadm"
-                    IN r.uid \in Succ(o, t.uid) /\ t.uid \in Succ(o, r.uid)
+                    IN r.uid \in ix.succ[t.uid] /\ t.uid \in ix.succ[r.uid]
             [] EffType(wb, c) = "ILA"   -> n("Transceiver") = 0 /\ n("Roadm") = 0 /\ n("Edfa") + n("Fused") = 2
             [] EffType(wb, c) = "FUSED" -> n("Transceiver") = 0 /\ n("Roadm") = 0 /\ n("Edfa") = 0 /\ n("Fused") = 2
 
 \* for every link one fibre per direction with the sheet's length, type, loss and connector values
-FibrePerDirection(wb, o) ==
-  /\ Cardinality(Fibers(o)) = 2 * Len(wb.links)
+FibrePerDirection(wb, o, ix) ==
+  /\ Cardinality(ix.fibers) = 2 * Len(wb.links)
   /\ \A l \in SeqSet(wb.links) :
-       /\ \E f \in FibersFromTo(o, l.a, l.z) : f.variety = EastEff(l).fiber /\ f.p = FiberP(EastEff(l))
-       /\ \E f \in FibersFromTo(o, l.z, l.a) : f.variety = WestEff(l).fiber /\ f.p = FiberP(WestEff(l))
-       /\ Cardinality(FibersFromTo(o, l.a, l.z)) = 1 /\ Cardinality(FibersFromTo(o, l.z, l.a)) = 1
+       LET az == FibersFromTo(ix, l.a, l.z)
+           za == FibersFromTo(ix, l.z, l.a)
+       IN /\ Cardinality(az) = 1 /\ Cardinality(za) = 1
+          /\ \A u \in az : ix.el[u].variety = EastEff(l).fiber /\ ix.el[u].p = FiberP(EastEff(l))
+          /\ \A u \in za : ix.el[u].variety = WestEff(l).fiber /\ ix.el[u].p = FiberP(WestEff(l))
 
-\* nothing dangles: every fibre and every line element has exactly one predecessor and one successor, a line
-\* element sits between two fibres (or a fibre and its own ROADM) and never turns the traffic back
-Continuity(wb, o) ==
-  /\ \A f \in Fibers(o) : Cardinality(Pred(o, f.uid)) = 1 /\ Cardinality(Succ(o, f.uid)) = 1
-  /\ \A c \in Cities(wb) : \A e \in {x \in At(o, c) : x.type \in {"Edfa", "Fused"}} :
-       /\ Cardinality(Pred(o, e.uid)) = 1 /\ Cardinality(Succ(o, e.uid)) = 1
-       /\ LET p == El(o, CHOOSE u \in Pred(o, e.uid) : TRUE)
-              s == El(o, CHOOSE u \in Succ(o, e.uid) : TRUE)
+\* nothing dangles: every fibre and every line element has exactly one predecessor and one successor; a line element
+\* sits between two fibres (or between a fibre and its own ROADM) and never turns the traffic back
+Continuity(wb, o, ix) ==
+  /\ \A u \in ix.fibers : Cardinality(ix.pred[u]) = 1 /\ Cardinality(ix.succ[u]) = 1
+  /\ \A e \in {x \in SeqSet(o.els) : IsLine(x) /\ x.city \in Cities(wb)} :
+       /\ Cardinality(ix.pred[e.uid]) = 1 /\ Cardinality(ix.succ[e.uid]) = 1
+       /\ LET p == ix.el[CHOOSE u \in ix.pred[e.uid] : TRUE]
+              s == ix.el[CHOOSE u \in ix.succ[e.uid] : TRUE]
+              c == e.city
           IN IF EffType(wb, c) = "ROADM"
-             THEN \/ (p.type = "Roadm" /\ p.city = c /\ s.type = "Fiber" /\ Up(o, s) = c)
-                  \/ (p.type = "Fiber" /\ Down(o, p) = c /\ s.type = "Roadm" /\ s.city = c)
-             ELSE p.type = "Fiber" /\ s.type = "Fiber" /\ Up(o, p) # Down(o, s)
-  /\ \A c \in Cities(wb) : EffType(wb, c) = "ROADM" =>
+             THEN \/ (p.type = "Roadm" /\ p.city = c /\ s.type = "Fiber" /\ ix.up[s.uid] = c)
+                  \/ (p.type = "Fiber" /\ ix.down[p.uid] = c /\ s.type = "Roadm" /\ s.city = c)
+             ELSE p.type = "Fiber" /\ s.type = "Fiber" /\ ix.up[p.uid] # ix.down[s.uid]
+  /\ \A c \in Cities(wb) : (EffType(wb, c) = "ROADM" /\ \E e \in At(o, c) : e.type = "Roadm") =>
        LET r == CHOOSE e \in At(o, c) : e.type = "Roadm" IN
        \A nb \in Neigh(wb, c) :
           \* towards nb: roadm -> [line element of this site] -> fibre(c -> nb), and the way back
-          /\ \E f \in FibersFromTo(o, c, nb) : \E u \in Pred(o, f.uid) :
-                u = r.uid \/ (El(o, u).city = c /\ El(o, u).type \in {"Edfa", "Fused"} /\ Pred(o, u) = {r.uid})
-          /\ \E f \in FibersFromTo(o, nb, c) : \E u \in Succ(o, f.uid) :
-                u = r.uid \/ (El(o, u).city = c /\ El(o, u).type \in {"Edfa", "Fused"} /\ Succ(o, u) = {r.uid})
+          /\ \E f \in FibersFromTo(ix, c, nb) : \E u \in ix.pred[f] :
+                u = r.uid \/ (ix.el[u].city = c /\ IsLine(ix.el[u]) /\ ix.pred[u] = {r.uid})
+          /\ \E f \in FibersFromTo(ix, nb, c) : \E u \in ix.succ[f] :
+                u = r.uid \/ (ix.el[u].city = c /\ IsLine(ix.el[u]) /\ ix.succ[u] = {r.uid})
 
 \* each Eqpt row (A, Z): the east settings are on the element of site A that feeds the fibre towards Z, the west
 \* settings on the element of site A that is fed by the fibre coming from Z
-AmpFacesNeighbour(wb, o) ==
+AmpFacesNeighbour(wb, o, ix) ==
   \A e \in SeqSet(wb.eqpt) :
-     /\ \E x \in At(o, e.a) : /\ \E f \in FibersFromTo(o, e.a, e.z) : Succ(o, x.uid) = {f.uid}
+     /\ \E x \in At(o, e.a) : /\ \E f \in FibersFromTo(ix, e.a, e.z) : ix.succ[x.uid] = {f}
                               /\ x.type = SideType(e.east) /\ x.variety = SideVariety(e.east) /\ x.p = SideP(e.east)
-     /\ \E x \in At(o, e.a) : /\ \E f \in FibersFromTo(o, e.z, e.a) : Pred(o, x.uid) = {f.uid}
+     /\ \E x \in At(o, e.a) : /\ \E f \in FibersFromTo(ix, e.z, e.a) : ix.pred[x.uid] = {f}
                               /\ x.type = SideType(e.west) /\ x.variety = SideVariety(e.west) /\ x.p = SideP(e.west)
 \* amplifiers the sheets do not describe are left to the design: no settings
-UndescribedAmpsAreBlank(wb, o) ==
+UndescribedAmpsAreBlank(wb, o, ix) ==
   \A c \in Cities(wb) : RowsFrom(wb, c) = {} => \A e \in At(o, c) : e.type = "Edfa" => e.variety = "" /\ e.p = AutoAmpP
 
 \* Roadms sheet: the target of row (A, Z) is the per-degree target of ROADM A for the element that feeds the fibre to Z
-PerDegreeTargets(wb, o) ==
+PerDegreeTargets(wb, o, ix) ==
   /\ Len(o.pd) = Len(wb.roadms)
   /\ \A r \in SeqSet(wb.roadms) : \E t \in SeqSet(o.pd) :
-       /\ El(o, t.roadm).type = "Roadm" /\ El(o, t.roadm).city = r.a /\ t.v = r.target
-       /\ t.deg \in Uids(o) /\ \E f \in FibersFromTo(o, r.a, r.z) : Succ(o, t.deg) = {f.uid}
+       /\ t.roadm \in ix.uids /\ ix.el[t.roadm].type = "Roadm" /\ ix.el[t.roadm].city = r.a /\ t.v = r.target
+       /\ t.deg \in ix.uids /\ \E f \in FibersFromTo(ix, r.a, r.z) : ix.succ[t.deg] = {f}
 
-Conforms(wb, o) == /\ UniqueNames(o) /\ EndpointsExist(o) /\ SiteInventory(wb, o) /\ FibrePerDirection(wb, o)
-                   /\ Continuity(wb, o) /\ AmpFacesNeighbour(wb, o) /\ UndescribedAmpsAreBlank(wb, o)
-                   /\ PerDegreeTargets(wb, o)
-ClauseNames == <<"UniqueNames", "EndpointsExist", "SiteInventory", "FibrePerDirection", "Continuity",
-                 "AmpFacesNeighbour", "UndescribedAmpsAreBlank", "PerDegreeTargets">>
-Clause(name, wb, o) == CASE name = "UniqueNames" -> UniqueNames(o) [] name = "EndpointsExist" -> EndpointsExist(o)
-                         [] name = "SiteInventory" -> SiteInventory(wb, o) [] name = "FibrePerDirection" -> FibrePerDirection(wb, o)
-                         [] name = "Continuity" -> Continuity(wb, o) [] name = "AmpFacesNeighbour" -> AmpFacesNeighbour(wb, o)
-                         [] name = "UndescribedAmpsAreBlank" -> UndescribedAmpsAreBlank(wb, o)
-                         [] name = "PerDegreeTargets" -> PerDegreeTargets(wb, o)
+ClauseNames == <<"SiteInventory", "FibrePerDirection", "Continuity", "AmpFacesNeighbour", "UndescribedAmpsAreBlank",
+                 "PerDegreeTargets">>
+Clause(name, wb, o, ix) ==
+  CASE name = "SiteInventory" -> SiteInventory(wb, o, ix) [] name = "FibrePerDirection" -> FibrePerDirection(wb, o, ix)
+    [] name = "Continuity" -> Continuity(wb, o, ix) [] name = "AmpFacesNeighbour" -> AmpFacesNeighbour(wb, o, ix)
+    [] name = "UndescribedAmpsAreBlank" -> UndescribedAmpsAreBlank(wb, o, ix)
+    [] name = "PerDegreeTargets" -> PerDegreeTargets(wb, o, ix)
 \* the structural clauses presuppose well-formed names and endpoints
 Failing(wb, o) == IF ~UniqueNames(o) THEN {"UniqueNames"} ELSE IF ~EndpointsExist(o) THEN {"EndpointsExist"}
-                  ELSE {ClauseNames[k] : k \in {j \in 3..Len(ClauseNames) : ~Clause(ClauseNames[j], wb, o)}}
+                  ELSE LET ix == Index(o) IN {ClauseNames[k] : k \in {j \in 1..Len(ClauseNames) : ~Clause(ClauseNames[j], wb, o, ix)}}
+Conforms(wb, o) == Failing(wb, o) = {}
+\* the name- and type-independent part: one fibre per direction of every link, and nothing dangles
+WiringFailing(wb, o) == IF ~UniqueNames(o) THEN {"UniqueNames"} ELSE IF ~EndpointsExist(o) THEN {"EndpointsExist"}
+                        ELSE LET ix == Index(o) IN {n \in {"FibrePerDirection", "Continuity"} : ~Clause(n, wb, o, ix)}
 
 -----------------------------------------------------------------------------
 (* Model(wb): the topology with the documented names *)
@@ -228,33 +241,45 @@ ModelPd(wb) == [i \in 1..Len(wb.roadms) |->
 Model(wb) == [els |-> ModelEls(wb), cx |-> ModelCx(wb), pd |-> ModelPd(wb)]
 
 Expected(wb) == IF ErrorKinds(wb) # {} THEN [status |-> "error", kinds |-> ErrorKinds(wb)]
+                ELSE IF Inconsistent(wb) THEN [status |-> "error-or-wired", kinds |-> {}]
                 ELSE [status |-> "ok", kinds |-> {}]
 
 -----------------------------------------------------------------------------
 (* SERVICES.  Row: id, src, dst, trx, mode ("" blank), spacing (GHz), power (dBm), nch, disjoint (seq of ids),   *)
 (* path (seq of names), loose ("" / "yes" / "no"), bw (Gbit/s).  Observed request: the JSON path-request.     *)
 \* the name a ROADM site is known by in the converted topology: the uid of its Roadm element
-RoadmUid(o, c) == (CHOOSE e \in At(o, c) : e.type = "Roadm").uid
-TrxUid(o, c)   == (CHOOSE e \in At(o, c) : e.type = "Transceiver").uid
+NamedAt(o, c, ty) == IF \E e \in At(o, c) : e.type = ty THEN (CHOOSE e \in At(o, c) : e.type = ty).uid ELSE "?"
+RoadmUid(o, c) == NamedAt(o, c, "Roadm")
+TrxUid(o, c)   == NamedAt(o, c, "Transceiver")
 PathOfRoadms(wb, row) == \A k \in 1..Len(row.path) : row.path[k] \in Cities(wb) /\ EffType(wb, row.path[k]) = "ROADM"
-RequestConforms(wb, o, row, q, bidir, tol) ==
+\* one request per row between the named sites' transceivers, with the row's transceiver, mode and direction flag
+RequestEnds(wb, o, row, q, bidir) ==
   /\ q.id = row.id /\ q.source = TrxUid(o, row.src) /\ q.destination = TrxUid(o, row.dst) /\ q.bidir = bidir
   /\ q.trx = row.trx /\ q.mode = (IF row.mode = "" THEN "~null" ELSE row.mode)
+\* spacing GHz -> Hz, bandwidth Gbit/s -> bit/s (0 when blank), channel count, power dBm -> W
+RequestUnits(row, q, tol) ==
   /\ q.spacing = Times1e9(row.spacing)
   /\ q.bandwidth = (IF row.bw.t = "absent" THEN Num(0, 0) ELSE Times1e9(row.bw))
   /\ q.nch = Dflt(row.nch, Null)
-  \* power: dBm -> W is transcendental; the harness reports the observed W back in micro-dBm
+  \* dBm -> W is transcendental: the harness reports the observed W back in micro-dBm (-9999 = no power given)
   /\ IF row.power.t = "absent" THEN q.power_udbm = -9999
      ELSE LET want == row.power.m * (10 ^ (6 - row.power.s)) IN q.power_udbm - want <= tol /\ want - q.power_udbm <= tol
-  \* a route list naming ROADM sites becomes the names of those sites' Roadm elements, in the order given
-  \* (other kinds of names in a route list are not decided here)
+\* a route list naming ROADM sites becomes the names of those sites' Roadm elements, in the order given, every hop
+\* LOOSE when the row says yes or nothing, STRICT otherwise (other kinds of names in a route list are not decided here)
+RequestRoute(wb, o, row, q) ==
   /\ PathOfRoadms(wb, row) => q.include = [k \in 1..Len(row.path) |-> RoadmUid(o, row.path[k])]
-  /\ \A k \in 1..Len(q.hops) : q.hops[k] = (IF row.loose \in {"", "yes"} THEN "LOOSE" ELSE "STRICT")
+  /\ \A k \in 1..Len(q.hops) : q.hops[k] = (IF row.loose \in {"", "yes", "Yes", "YES"} THEN "LOOSE" ELSE "STRICT")
   /\ Len(q.hops) = Len(q.include)
-ServiceConforms(wb, o, obs, bidir, tol) ==
+\* one synchronisation vector per row with a 'disjoint from' entry: the row's id followed by the ids it names
+SyncConforms(wb, obs) ==
   LET withsync == SelectSeq(wb.services, LAMBDA r : r.disjoint # <<>>) IN
-  /\ Len(obs.reqs) = Len(wb.services)
-  /\ \A k \in 1..Len(wb.services) : RequestConforms(wb, o, wb.services[k], obs.reqs[k], bidir, tol)
   /\ Len(obs.sync) = Len(withsync)
   /\ \A k \in 1..Len(withsync) : obs.sync[k] = [id |-> withsync[k].id, ids |-> <<withsync[k].id>> \o withsync[k].disjoint]
+ServiceFailing(wb, o, obs, bidir, tol) ==
+  IF Len(obs.reqs) # Len(wb.services) THEN {"OneRequestPerRow"}
+  ELSE (IF \E k \in 1..Len(wb.services) : ~RequestEnds(wb, o, wb.services[k], obs.reqs[k], bidir) THEN {"RequestEnds"} ELSE {})
+       \cup (IF \E k \in 1..Len(wb.services) : ~RequestUnits(wb.services[k], obs.reqs[k], tol) THEN {"RequestUnits"} ELSE {})
+       \cup (IF \E k \in 1..Len(wb.services) : ~RequestRoute(wb, o, wb.services[k], obs.reqs[k]) THEN {"RequestRoute"} ELSE {})
+       \cup (IF ~SyncConforms(wb, obs) THEN {"DisjunctionPerEntry"} ELSE {})
+ServiceConforms(wb, o, obs, bidir, tol) == ServiceFailing(wb, o, obs, bidir, tol) = {}
 ==============================================================================
